@@ -33,12 +33,12 @@ package sequtil
 //@   ensures result == base(num)
 
 //@ func complementByte
-//@   props C12
+//@   props C12 C18
 //@   panics !isBase10(b)
 //@   ensures result == comp(b)
 
 //@ func ReverseComplement
-//@   props C12
+//@   props C12 C18
 //@   panics exists j int :: 0 <= j && j < len(src) && !isBase10(src[j])
 //@   ensures len(result) == len(dst) + len(src)
 //@   ensures forall j int :: 0 <= j && j < len(dst) ==> result[j] == dst[j]
